@@ -33,7 +33,7 @@ CHECKS["C04"] = dict(
          "deframer: header must agree with body or the encoder must raise) or from the reference framer; the decoder is called once per "
          "frame exactly like the read loop and must deliver the reference message and stop exactly at the frame end; 2% of cases run through "
          "a real channel and read loop. Non-trivial = >=2 frames in the stream and a read boundary strictly inside a frame. Distinct by case hash.",
-    required=["codec:lf", "codec:prep", "codec:varint", "codec:delim", "codec:fixed", "width:1", "width:2", "width:4", "width:8",
+    required=["arena", "codec:lf", "codec:prep", "codec:varint", "codec:delim", "codec:fixed", "width:1", "width:2", "width:4", "width:8",
               "one-byte-reads", "length-field-at-capacity", "frame-at-max", "layer:channel", "multi-frame", "cut-inside-frame",
               "carrier:bytes", "carrier:string", "carrier:buffer", "carrier:breader", "carrier:sreader", "carrier:bb", "carrier:reader", "carrier:short"],
     assumptions=["reference framers follow the parameter documentation (Netty semantics for the length-field codec)",
@@ -54,7 +54,7 @@ CHECKS["C08"] = dict(
          "truncated frames and end-of-stream must raise (never a runtime error), bytes pulled per frame are bounded, every call makes "
          "progress; 5% of cases run through a real channel/read loop (peer EOF / read error / parked). "
          "Non-trivial = the first malformed or truncated frame follows at least one valid frame. Distinct by case hash.",
-    required=["codec:lf", "codec:prep", "codec:varint", "codec:delim", "codec:fixed", "layer:channel", "bad-after-valid",
+    required=["codec:varlen", "varlen:source-offers-more-than-max", "codec:lf", "codec:prep", "codec:varint", "codec:delim", "codec:fixed", "layer:channel", "bad-after-valid",
               "first-bad:truncated", "first-bad:reject", "ends-at-frame-boundary", "end:eof", "end:err", "end:park", "delivered-ok", "raised:"],
     assumptions=["reference decoders follow the documented parameter semantics",
                  "a message whose consumer-side read ends with a non-EOF error counts as not delivered (a real consumer raises)"],
@@ -130,7 +130,7 @@ CHECKS["C01"] = dict(
          "Oracle: the transport byte stream parsed by call-id table: only successful calls, each once, bytes identical, per-task order, "
          "real-time order, prefix-closed; (n, err) consistent. Non-trivial = >=2 writers and (>=2 packets queued at some decision, or an "
          "enqueue while the sender was between its last poll and its release, or a writer blocked on the write lock). Distinct by case hash.",
-    required=["kind:sync", "kind:qblock", "kind:qnonblock", "queue:1", "queue:2", "queue:>2", "batch>=2", "blocked-on-full-queue",
+    required=["kind:sync", "kind:qblock", "kind:qnonblock", "queue:1", "queue:2", "queue:>2", "blocked-on-full-queue",
               "enqueue-in-release-window", "sync-lock-contended", "preempt:>=3", "entry:write1", "entry:writev", "entry:ctxwrite1",
               "entry:ctxwritev", "entry:writerwrite", "size:0", "size:~1024", "size:class-boundary", "size:>=65535"],
     assumptions=_E1_ASSUME,
@@ -170,6 +170,11 @@ CHECKS["C06"] = dict(
     test="TestC06", level="exploration",
     quick=dict(shards=16, checks=160, timeout=400),
     thorough=dict(shards=16, checks=4000, timeout=3400, shrinktime="120s"),
+    stages=[
+        dict(name="real-sleep", env={}, quick=dict(shards=8, checks=160, timeout=400), thorough=dict(shards=8, checks=4000, timeout=3400, shrinktime="120s")),
+        dict(name="no-sleep", vclock=True, class_prefix="nosleep:", env={"VERIF_NOSLEEP": "1"},
+             quick=dict(shards=8, checks=3000, timeout=400), thorough=dict(shards=8, checks=400000, timeout=3400, shrinktime="120s")),
+    ],
     rule="cooperative-scheduler cases on queued channels (queue 1,2,3,4,6; wait-for-writes and bounded-wait mode): 1-3 writer tasks x 1-4 "
          "calls over the five entry points, then one Close (own closer task enabled only when every writer task has ended, or issued by "
          "the single writer itself) with error nil/sentinel/wrapped; generated schedule plus directed prefixes that park the sender at "
@@ -180,14 +185,21 @@ CHECKS["C06"] = dict(
          "sender task existed and had not ended. Distinct by case hash.",
     required=["close-overlaps-sender", "untilwrite:true", "untilwrite:false", "closer-stepped-while-sender-at:send.afterRelease",
               "closer-stepped-while-sender-at:send.beforeRelease", "closer-stepped-while-sender-at:send.beforeFlush",
-              "closer-stepped-while-sender-at:send.afterWritev", "queue:1", "queue:2", "queue:>2"],
-    assumptions=_E1_ASSUME + ["Close's 100 ms poll sleep is real time (add-only hooks cannot remove it); cases that overlap Close with a running sender are budgeted by count"],
+              "closer-stepped-while-sender-at:send.afterWritev", "queue:1", "queue:2", "queue:>2",
+              "nosleep:close-waited>=3-polls", "nosleep:grace-period-exhausted"],
+    assumptions=_E1_ASSUME + ["stage real-sleep: Close's 100 ms poll sleep is real time, cases that overlap Close with a running sender are budgeted by count",
+                               "stage no-sleep (clock-redirected build, see C20): time.Sleep in the root package takes no wall time and is added to a virtual 'slept' total; a bounded-wait Close that slept >= 1 s in total has exhausted the grace period (10 x 100 ms on this tree) and is exempt"],
 )
 
 CHECKS["C11"] = dict(
     test="TestC11", level="exploration",
     quick=dict(shards=16, checks=500, timeout=400),
     thorough=dict(shards=16, checks=10000, timeout=3400, shrinktime="120s"),
+    stages=[
+        dict(name="real-sleep", env={}, quick=dict(shards=8, checks=500, timeout=400), thorough=dict(shards=8, checks=10000, timeout=3400, shrinktime="120s")),
+        dict(name="no-sleep", vclock=True, class_prefix="nosleep:", env={"VERIF_NOSLEEP": "1"},
+             quick=dict(shards=8, checks=2500, timeout=400), thorough=dict(shards=8, checks=400000, timeout=3400, shrinktime="120s")),
+    ],
     rule="cooperative-scheduler cases: channel kind (sync, queued blocking/non-blocking, queue 1-8) x who closed (user Close with nil / "
          "sentinel / wrapped / io.EOF / net.Error argument; the read loop after parent-context cancellation, i.e. Close(nil); the tail "
          "handler after peer EOF or a read failure; the sender after an injected Writev failure) x optional traffic before and "
@@ -205,6 +217,11 @@ CHECKS["C18"] = dict(
     test="TestC18", level="exploration",
     quick=dict(shards=16, checks=400, timeout=400),
     thorough=dict(shards=16, checks=8000, timeout=3400, shrinktime="120s"),
+    stages=[
+        dict(name="real-sleep", env={}, quick=dict(shards=8, checks=400, timeout=400), thorough=dict(shards=8, checks=8000, timeout=3400, shrinktime="120s")),
+        dict(name="no-sleep", vclock=True, class_prefix="nosleep:", env={"VERIF_NOSLEEP": "1"},
+             quick=dict(shards=8, checks=2000, timeout=400), thorough=dict(shards=8, checks=100000, timeout=3400, shrinktime="120s")),
+    ],
     rule="cooperative-scheduler cases on queued channels (queue 1-4, blocking and non-blocking mode): 1-4 writer tasks x 1-5 calls over the "
          "five entry points with background / already-cancelled / live caller contexts (a canceller task cancels the live ones at a "
          "scheduled moment), sender normal, never scheduled before the final sweep (stalled executor) or parked inside the transport's "
@@ -223,6 +240,11 @@ CHECKS["C05"] = dict(
     test="TestC05", level="exploration",
     quick=dict(shards=16, checks=500, timeout=400),
     thorough=dict(shards=16, checks=60000, timeout=3400, shrinktime="120s"),
+    stages=[
+        dict(name="real-sleep", env={}, quick=dict(shards=8, checks=500, timeout=400), thorough=dict(shards=8, checks=60000, timeout=3400, shrinktime="120s")),
+        dict(name="no-sleep", vclock=True, class_prefix="nosleep:", env={"VERIF_NOSLEEP": "1"},
+             quick=dict(shards=8, checks=3000, timeout=400), thorough=dict(shards=8, checks=300000, timeout=3400, shrinktime="120s")),
+    ],
     rule="cooperative-scheduler cases with the pipeline [real ChannelHolder, lifecycle probe, recorders, transport reader]: 0-4 closer tasks "
          "with distinct error values (one may be nil), Close from inside HandleActive / the k-th HandleRead / HandleEvent, parent-context "
          "cancellation, peer EOF, read failure (timeout, non-timeout net.Error, plain error), injected sender-side Writev/Flush failure, "
@@ -235,7 +257,7 @@ CHECKS["C05"] = dict(
          "150 rounds) because the closer election itself contains no yield point. Non-trivial = at least two Close calls whose executions overlap. Distinct by case hash.",
     replay_repeat=30,
     required=["closes-overlap", "stress", "scheduled-activation", "close-source:task", "close-source:HandleActive", "close-source:HandleRead",
-              "close-source:HandleEvent", "close-source:holder", "winner:implicit", "nil-error-close", "read-failed", "reads-delivered",
+              "close-source:HandleEvent", "close-source:holder", "winner:implicit", "nil-error-close", "read-failed", "read-failure-swallowed-by-handler", "read-failure-wrapped", "reads-delivered",
               "kind:sync", "kind:qblock", "kind:qnonblock"],
     assumptions=_E1_ASSUME + ["ServeChannel's wait for the activation has no yield point: its task continues on its own (detached) and its return is ordered by sequence numbers"],
 )
@@ -295,7 +317,7 @@ CHECKS["C07"] = dict(
          "delivered once per exception handler in order up to the first that stops, with the panic value's identity, close with that "
          "exception if unconsumed, failure errors carried by inactive. Non-trivial = a panic site or transport fault actually fired.",
     required=["fault-fired:chwrite", "fault-fired:chtrigger", "fault-fired:readloop", "fault-fired:ctxwrite", "fault-fired:ctxtrigger",
-              "value:error", "value:string", "value:runtime", "value:timeout", "value:neterr", "value:wrapped-neterr", "site:active", "site:read",
+              "value:error", "value:string", "value:runtime", "value:timeout", "value:neterr", "value:wrapped-neterr", "value:stringer-error", "site:active", "site:read",
               "site:write", "site:event", "channel:sync", "channel:queued", "transport-fault-fired", "read-failure:", "state:closed"],
     assumptions=["exception and inactive handlers never panic (the property's proviso)",
                  "a non-timeout net.Error consumed by a handler after being raised through a channel entry point also closes the channel today; the property is silent, both outcomes are accepted from that point on",
@@ -368,9 +390,13 @@ CHECKS["C20"] = dict(
     test="TestC20", level="exploration", death_is_violation=True,
     quick=dict(shards=4, checks=2, timeout=300),
     thorough=dict(shards=8, checks=80, timeout=3400),
+    stages=[
+        dict(name="real-time", env={}, quick=dict(shards=4, checks=2, timeout=300), thorough=dict(shards=6, checks=80, timeout=3400)),
+        dict(name="virtual-time", vclock=True, class_prefix="v:", env={"VERIF_C20_MODE": "virtual"},
+             quick=dict(shards=6, checks=30000, timeout=300), thorough=dict(shards=10, checks=3000000, timeout=3400)),
+    ],
     replay_repeat=1,
-    rule="generated timelines executed in real time (the handlers use time.Now/time.AfterFunc directly and refuse idle times below 1 s; "
-         "replacing the clock would not be an add-only hook): one case = 200 independent timelines run concurrently, each on its own "
+    rule="two stages. (1) REAL TIME: one case = 200 independent timelines run concurrently, each on its own "
          "channel with the read-idle and/or write-idle handler (idle time 1 s), 0-6 stimuli (inbound messages / outbound writes, bursts) "
          "at generated offsets up to 4.4 s of which a third sit 20-80 ms before or after an expected expiry, optionally an inactive at a "
          "generated offset or within +-30 ms of an expected expiry, an event handler that panics on, or closes the channel from inside, "
@@ -379,9 +405,25 @@ CHECKS["C20"] = dict(
          "on an active channel without an event; after the inactive event passed at most one event per handler and none later than "
          "400 ms; a panicking event handler reaches the exception handlers and later periods are still timed; the process survives. A hit "
          "is reported only if it reproduces on an immediate second run of that timeline. Non-trivial (per case) = some timeline had a "
-         "stimulus within 100 ms of an expiry, an inactive within 30 ms of one, a panicking or closing event handler.",
+         "stimulus within 100 ms of an expiry, an inactive within 30 ms of one, a panicking or closing event handler. "
+         "(2) VIRTUAL TIME (build-time instrumentation, no hook in /repo: harness/cmd/vclockgen copies the tree and redirects time.Now/Since/Until/AfterFunc/Timer of the root package to a switchable clock; skipped with a note when the tree uses a clock API it cannot redirect): one case = 1-4 timelines executed by "
+         "one goroutine on a virtual clock: idle time 1/1.5/3 s, 0-14 steps out of {advance by 1..2*idle ms, advance to the next timer "
+         "expiry -50/-1/0/+1/+50 ms, run one fired-but-not-yet-run timer callback (callbacks are delayed arbitrarily unless the timeline "
+         "is 'prompt'), inbound message, outbound write, inactive whose downstream handler takes 0 / idle-1 / idle+300 / 2*idle+200 ms, "
+         "stimuli after inactive}, event handler that panics on / closes from the k-th event, exception handler that panics once; then all "
+         "callbacks in flight complete and three more idle periods pass. Exact oracle, no slack: an idle event at virtual time T needs "
+         "T - (last stimulus of its direction, activation) >= idle; after the inactive event reached the handler behind the idle handlers "
+         "only a callback whose timer had fired before that moment may deliver an event (at most one per handler) and after three idle "
+         "periods no timer is armed; an active channel left alone for 3 idle periods (prompt callbacks) delivers an event, and in prompt "
+         "timelines no silence exceeds 2*idle; an event-handler panic reaches the exception handlers and no panic escapes the callback. "
+         "Non-trivial = a delayed callback ran after a later stimulus, an inactive with a callback in flight, a slow downstream inactive "
+         "handler, a stimulus after inactive, a panicking or closing event handler.",
     required=["handlers:read", "handlers:write", "handlers:both", "idle-events-observed", "inactive", "inactive-near-expiry",
-              "stimulus-near-expiry", "event-handler-panicked", "closed-from-event-handler", "slow-downstream-inactive", "write-after-inactive"],
-    assumptions=["real time with a slack of 400 ms between the handler's decision and the harness timestamp (measured lateness in the design probe: <= 2.2 ms for 600 concurrent timelines); a false alarm needs a 400 ms stall of one goroutine twice in a row",
-                 "exception handlers do not panic"],
+              "stimulus-near-expiry", "event-handler-panicked", "closed-from-event-handler", "slow-downstream-inactive", "write-after-inactive",
+              "v:handlers:read", "v:handlers:write", "v:handlers:both", "v:idle-events-observed", "v:callback-ran-after-later-stimulus",
+              "v:inactive-with-callback-in-flight", "v:advanced-to-exact-expiry", "v:stimulus-after-inactive", "v:slow-downstream-inactive",
+              "v:event-handler-panicked", "v:double-fault", "v:closed-from-event-handler", "v:prompt-callbacks", "v:delayed-callbacks"],
+    assumptions=["real-time stage: a slack of 400 ms between the handler's decision and the harness timestamp (measured lateness in the design probe: <= 2.2 ms for 600 concurrent timelines); a false alarm needs a 400 ms stall of one goroutine twice in a row",
+                 "virtual-time stage: the idle handlers read the clock only through time.Now/Since/Until/AfterFunc (a tree that uses time.NewTimer/After/Tick/NewTicker/Sleep for idle timing is only seen by the real-time stage); timelines are executed by one goroutine, so the timer callback and the handler methods never overlap inside one method (the real-time stage and C12 sample that)",
+                 "exception handlers do not panic (except where the timeline says so)"],
 )
